@@ -285,8 +285,12 @@ def judge_one(ctx, prefix, prog, family, w, tname, base_canon=None):
         ctx.violation(f'{prefix}/drawing-construction-raised/{d.key}', f'building the drawing raised {d.text}', {})
         return net
     if not D.geometry_ok(prog, d):
-        ctx.count('set_aside_schemdraw_did_not_honour_endpoints')
-        return net
+        if not prog.get('chain'):
+            ctx.count('set_aside_schemdraw_did_not_honour_endpoints')
+            return net
+        # chained placement uses directions and lengths that every symbol can realise (steps >= 1.5 units): a symbol that does not
+        # end where its length says is the library's own placement code at work, and the drawing is then judged as it stands
+        ctx.count('chained_drawings_with_displaced_symbols')
     if (len(prog['symbols']) + len(tname)) % 2 == 0:
         # a drawing is normally rendered before it is analysed (leaving a `with Schematic()` block draws it): rendering must not
         # change what it depicts
